@@ -35,6 +35,11 @@ ASSUMPTIONS = [
     "a further SETUP may arrive while the previous request is unfinished (e.g. its status-stage ACK was lost); the "
     "device must restart on it [USB 2.0 8.5.3].  Half-duplex bus: no SETUP while the device transmits (tx.valid) and "
     "none within 6 cycles of the previous token / stage strobe (a SETUP transaction is >= 14 byte times)",
+    "legal host [DESIGN 4 usb_host: 'never transmits while the device transmits'; 4.1: packets on the wire never "
+    "overlap]: no IN/OUT token either while the device transmits (tx.valid in the previous cycle), nor within 4 cycles "
+    "of a stage strobe -- data_requested / status_requested are pulsed when the device is due to answer, the host "
+    "then waits for the answer or a bus time-out (>= 16 FS / 736 HS bit times, >= 80 cycles) before its next token, "
+    "which itself lasts >= 3 byte times",
     "tx.ready free every cycle; active_config symbolic constant",
 ]
 BOUNDS = "BMC from reset, all 8 setup bytes symbolic per request, two consecutive requests (the first possibly left unfinished); quick K=15, thorough K=22"
@@ -108,6 +113,12 @@ class UnsupportedHarness(Harness):
         tx_busy = Signal(name="tx_busy_prev")      # registered: tx.valid depends combinationally on the strobes
         m.d.usb += tx_busy.eq(sh.tx.valid)
         may_setup = (quiet >= GAP) & ~tx_busy
+        # the same half-duplex contract for IN / OUT tokens: a stage strobe means "the device answers now"; the host
+        # listens for that answer (or a bus time-out, >= 80 cycles) before it sends anything, and never talks into
+        # the device's packet.  RESP_GAP only has to bridge the cycles until the answer shows as tx_busy.
+        RESP_GAP = 4
+        owed = Signal(3, name="cycles_since_strobe", init=7)
+        may_token = (owed >= RESP_GAP) & ~tx_busy
         setup_now = Signal(name="setup_now")
         m.d.comb += setup_now.eq(self.do_setup & may_setup & ~received)
         m.d.usb += received.eq(setup_now)
@@ -130,7 +141,7 @@ class UnsupportedHarness(Harness):
         TOK_NONE, TOK_SETUP, TOK_IN, TOK_OUT = 0, 1, 2, 3
         tok = Signal(2, name="cur_token")
         new_token = Signal(name="new_token")
-        m.d.comb += new_token.eq(setup_now | (active & self.ev_token))
+        m.d.comb += new_token.eq(setup_now | (active & self.ev_token & may_token))
         with m.If(setup_now):
             m.d.usb += tok.eq(TOK_SETUP)
         with m.Elif(new_token):
@@ -157,6 +168,10 @@ class UnsupportedHarness(Harness):
         ]
         with m.If(status_req):
             m.d.usb += stage_status.eq(1)
+        with m.If(data_req | status_req):
+            m.d.usb += owed.eq(0)
+        with m.Elif(owed != 7):
+            m.d.usb += owed.eq(owed + 1)
         with m.If(data_req | status_req | new_token | received):
             m.d.usb += quiet.eq(0)
         with m.Elif(quiet != 7):
